@@ -15,3 +15,4 @@ open RV.C01
 #print axioms binop_nested
 #print axioms gen_sound
 #print axioms gen_quiescent
+#print axioms triples_choices
